@@ -43,7 +43,7 @@ ASSUMPTIONS = [
     "counted in probe.any_ambiguous_at_build, not judged",
     "same-instant ordering between events follows creation order (C01)",
 ]
-EXPECTED_PROBES = ["probe.pre_resolved_wait", "probe.resolve_twice", "probe.nested_combinator",
+EXPECTED_PROBES = ["probe.shared_leaf_woke_two", "probe.shared_empty_list_form", "probe.pre_resolved_wait", "probe.resolve_twice", "probe.nested_combinator",
                    "probe.hook_on_process", "probe.sub_generator", "probe.any_ambiguous_at_build",
                    "probe.sub_ns_delay_truncated"]
 SHRINK_SKIP = ("futures",)
@@ -119,6 +119,19 @@ def _tiny(steps):
     return False
 
 
+def _shared_empty(sc) -> int:
+    """max number of 'shared_empty' yields (without emits) in one process"""
+    def count(steps):
+        n = 0
+        for s in steps:
+            if s["op"] == "delay" and s.get("form") == "shared_empty" and not s.get("emits"):
+                n += 1
+            elif s["op"] == "sub":
+                n += count(s["steps"])
+        return n
+    return max([count(p["steps"]) for p in sc["procs"]] + [0])
+
+
 def run(sc):
     procprog.validate(sc)
     ref = procprog.RefWorld(sc)
@@ -138,6 +151,7 @@ def run(sc):
     counters["probe.hook_on_process"] = int(any(p.get("hook") for p in sc["procs"]))
     counters["probe.sub_generator"] = int(any(_has_sub(p["steps"]) for p in sc["procs"]))
     counters["probe.sub_ns_delay_truncated"] = int(any(_tiny(p["steps"]) for p in sc["procs"]))
+    counters["probe.shared_empty_list_form"] = int(_shared_empty(sc) >= 2)
     counters["probe.parked_forever"] = int(len(ref.waiting) > 0)
     counters[f"loop.{sc.get('loop')}"] = 1
     state = repr((sc.get("loop"), tuple(sorted(k for k, v in counters.items() if k.startswith("probe.") and v))))
